@@ -52,6 +52,12 @@ type sStep struct {
 	scope []string   // watch: client | db D | coll D C
 	opts  [][]string // watch: {resume|after, tok|id, N} or {at, N}
 	s     int        // stream index
+	// watch without options directly before a (commit (txnw ...)): the stream is
+	// opened INSIDE that transaction, after its first write has been applied and
+	// before it commits (by a client without the session context). For the
+	// model this is the same script: Watch sees the committed catalog, so the
+	// stream starts before the transaction's events.
+	deferred bool
 }
 
 type sScript struct {
@@ -163,6 +169,12 @@ func parseStreamScript(c *sx) (*sScript, error) {
 		}
 		sc.steps = append(sc.steps, st)
 	}
+	for i, st := range sc.steps {
+		if st.kind == "watch" && len(st.opts) == 0 && i+1 < len(sc.steps) && sc.steps[i+1].kind == "commit" &&
+			sc.steps[i+1].op.isL && len(sc.steps[i+1].op.list) > 0 && sc.steps[i+1].op.list[0].atom == "txnw" {
+			st.deferred = true
+		}
+	}
 	return sc, nil
 }
 
@@ -193,6 +205,9 @@ type sRun struct {
 	epochBad bool
 	hung     bool // a call did not return: Engine.Close would block on the stream's mutex
 	trace    []sObs
+	pending    *sStep // deferred watch, opened inside the next txnw transaction
+	pendingIdx int
+	pendingErr bool
 }
 
 func newSRun(min, max, always int) *sRun {
@@ -293,18 +308,47 @@ func (r *sRun) refresh() []histEv {
 	return fresh
 }
 
+// openPending opens the deferred stream (default start position) from a
+// client without session context.
+func (r *sRun) openPending() {
+	st := r.pending
+	r.pending = nil
+	var s lungo.IChangeStream
+	var err error
+	ctx := context.Background()
+	switch st.scope[0] {
+	case "client":
+		s, err = r.client.Watch(ctx, bson.A{})
+	case "db":
+		s, err = r.client.Database(st.scope[1]).Watch(ctx, bson.A{})
+	default:
+		s, err = r.client.Database(st.scope[1]).Collection(st.scope[2]).Watch(ctx, bson.A{})
+	}
+	if err != nil {
+		r.pendingErr = true
+		return
+	}
+	r.streams[r.pendingIdx] = s
+}
+
 func (r *sRun) doOp(ctx context.Context, op *sx) {
 	name := op.list[0].atom
-	if name == "txn" {
+	if name == "txn" || name == "txnw" {
 		_ = r.client.UseSession(ctx, func(sc lungo.ISessionContext) error {
 			_, err := sc.WithTransaction(sc, func(sc2 lungo.ISessionContext) (interface{}, error) {
-				for _, sub := range op.list[1:] {
+				for i, sub := range op.list[1:] {
 					r.doOp(sc2, sub)
+					if i == 0 && name == "txnw" && r.pending != nil {
+						r.openPending()
+					}
 				}
 				return nil, nil
 			})
 			return err
 		})
+		if r.pending != nil { // the transaction had no statement
+			r.openPending()
+		}
 		return
 	}
 	db := r.client.Database(unhx(op.list[1].atom))
@@ -463,6 +507,9 @@ func (r *sRun) step(st *sStep, record bool) (string, int) {
 			r.epochBad = true
 		}
 		out = "L" + strconv.Itoa(r.olen)
+		if r.pendingErr {
+			out = "ERR-DEFERRED-WATCH"
+		}
 	case "tick":
 		r.tick()
 		out = "."
@@ -471,6 +518,14 @@ func (r *sRun) step(st *sStep, record bool) (string, int) {
 		r.refresh()
 		out = "L" + strconv.Itoa(r.olen)
 	case "watch":
+		if st.deferred {
+			o.stream = len(r.streams)
+			r.streams = append(r.streams, nil)
+			r.pending, r.pendingIdx = st, o.stream
+			out = "W"
+			o.res = out
+			break
+		}
 		opt := options.ChangeStream()
 		for _, op := range st.opts {
 			if op[0] == "at" {
@@ -716,6 +771,25 @@ func genStreamCase(r *rng, tick bool) (string, string) {
 				}
 				add(st)
 			case x < 50:
+				if r.chance(1, 6) {
+					// a stream opened (default position) while a session transaction with
+					// applied, uncommitted writes is open: it must deliver them after the commit
+					scope := genScope(r)
+					if scope[0] != "client" && r.chance(2, 3) {
+						scope = []string{"coll", "d", "c"}
+					}
+					xs := []*sx{{atom: "txnw"}}
+					for j, m := 0, 1+r.intn(3); j < m; j++ {
+						sub := genOp(r, false)
+						for sub.list[0].atom == "dropc" || sub.list[0].atom == "dropdb" {
+							sub = genOp(r, false)
+						}
+						xs = append(xs, sub)
+					}
+					add(&sStep{kind: "watch", scope: scope, deferred: true})
+					add(&sStep{kind: "commit", op: &sx{isL: true, list: xs}})
+					break
+				}
 				add(&sStep{kind: "commit", op: genOp(r, true)})
 			case x < 60 && !tick:
 				k := r.intn(3)
